@@ -5,6 +5,7 @@ Seeded regressions written by independent sub-agents (see DESIGN.md, section "Se
 usage: tools/seeded.py import <dir-with-patch.diff/demo.py/meta.json> <ID>   # validate + keep
        tools/seeded.py run [--tier quick|thorough] [--jobs N] [ID ...]      # re-run checks
        tools/seeded.py table                                                 # markdown table
+       tools/seeded.py show <ID> [PROP]                                      # output of one check on the patched copy
 
 'import' confirms in a scratch copy of /repo's current tree (under /tmp, removed afterwards):
 patch applies; the repository's tests pass with it; the demonstration passes without the patch and
@@ -209,6 +210,22 @@ def main(argv):
                     json.dump(meta, f, indent=1)
                 print(sid, {p: ('CAUGHT' if r['caught'] else f"missed rc={r['rc']}")
                             for p, r in res.items()})
+        return 0
+    if argv[0] == 'show':
+        # run one check against the patched scratch copy and print the end of its output
+        # (never patch /repo itself for this: background runs read /repo's working tree)
+        sid, prop = argv[1], (argv[2] if len(argv) > 2 else None)
+        d = os.path.join(SEEDED, sid)
+        with open(os.path.join(d, 'meta.json')) as f:
+            meta = json.load(f)
+        scratch = scratch_copy(os.path.join(d, 'patch.diff'))
+        try:
+            env = dict(os.environ, VERIF_REPO=scratch)
+            p = subprocess.run([os.path.join(VERIF, 'check'), prop or meta['property'], 'quick'],
+                               env=env, capture_output=True, text=True, cwd=VERIF)
+            print('\n'.join(l[:700] for l in p.stdout.strip().splitlines()[-25:]))
+        finally:
+            cleanup(scratch)
         return 0
     print(__doc__)
     return 2
